@@ -59,6 +59,10 @@ CATALOGUE = [
      'availabilityStartTime of the refreshed manifest compared with the previous one'),
 ]
 
+# kinds whose expectation is an equality (within a tolerance): the detecting check must be two-sided
+TWO_SIDED = ('wrong decode time', 'wrong sequence number', 'wrong saio offset', 'trun offset outside mdat',
+             'availabilityStartTime changed across a refresh')
+
 CHECKS = ('check_true', 'check_none', 'check_not_none', 'check_equal', 'check_not_equal',
           'check_includes', 'check_not_in', 'check_less_than', 'check_less_than_or_equal',
           'check_greater_than', 'check_greater_or_equal', 'check_starts_with',
@@ -157,6 +161,25 @@ def r18_1_2(rep: Report) -> None:
             if all(_has_fact(f, text + cond) for f in facts):
                 hits.append((r, fn, call))
         construct = rel if rel.endswith('.py') else f'{rel}/*'
+        if hits and kind in TWO_SIDED:
+            # the expectation is an equality: a value that is too small is as wrong as one that is too large
+            def symmetric(fn_, call_) -> bool:
+                if call_.func.attr in ('check_equal', 'check_almost_equal', 'check_not_equal'):
+                    return True
+                txt = ' | '.join(_expand(fn_, a) for a in call_.args)
+                return 'abs(' in txt or (call_.func.attr == 'check_true' and ('==' in txt or '!=' in txt))
+            sym = [h for h in hits if symmetric(h[1], h[2])]
+            r0, fn0, call0 = (sym or hits)[0]
+            cl0 = enclosing_class(call0)
+            c0 = f'{r0}::{cl0.name + "." if cl0 else ""}{fn0.name}'
+            if sym:
+                rep.ok('R18.12', c0, kind, f'{short(call0, 60)} is two-sided')
+            else:
+                rep.fail('R18.12', c0, kind,
+                         f'the only check that reads {facts} is `{short(call0, 70)}`, an ordering test of a signed '
+                         'difference: a value on the other side of the expectation (earlier / smaller than expected) passes '
+                         'unreported. The expectation is an equality - compare with check_equal / check_almost_equal or test '
+                         'abs(difference)', call0)
         if hits:
             r, fn, call = hits[0]
             cl = enclosing_class(call)
@@ -938,6 +961,7 @@ def analyse(rep: Report) -> None:
     rep.rule('R18.9', 'the expectation chained from one media segment to the next is renewed on every iteration', floor=1)
     rep.rule('R18.10', 'an element\'s own checks are not switched off by state carried over a manifest refresh', floor=1)
     rep.rule('R18.11', 'every S@t of a SegmentTimeline sets the running start (a gap is visible)', floor=1)
+    rep.rule('R18.12', 'an expectation that is an equality is checked on both sides', floor=5)
     r18_1_2(rep)
     r18_3(rep)
     r18_4(rep)
